@@ -242,7 +242,7 @@ def check(case, ctx):
 
 def gen_case(rng, dtypes):
     pool = [o for o in OPS if o != "groups"]
-    case = common.gen_opcase(rng, pool, dtypes, mask_kinds=["none", "none", "bool", "bool_series"], index_p=0.3, nkeys_pool=(1, 1, 1, 2))
+    case = common.gen_opcase(rng, pool, dtypes, mask_kinds=None, index_p=0.3, nkeys_pool=(1, 1, 1, 2))  # incl. position / slice masks
     n = case["n"]
     if rng.random() < 0.12:
         case["op"] = "groups"
